@@ -95,6 +95,9 @@ def scn_sched(d: Draw, prof: dict, *, selections: float = 0.0, history: float = 
                 v["is_sequential"] = d.bool(0.5)
             if v:
                 nodes.append([["id", idx], v])
+        tags = sorted({t for f in spec["funcs"].values() for t in ([f["tag"]] if isinstance(f["tag"], str) else (f["tag"] or []))})
+        if tags and d.bool(0.4):
+            nodes.append([["tag", d.pick(tags)], {"priority": d.int(-3, 6)}])   # may collide with an id entry: then ValueError is expected
         conf: Dict[str, Any] = {"nodes": nodes}
         if d.bool(0.3):
             conf["max_concurrency"] = d.int(1, 4)
@@ -468,7 +471,7 @@ def g_c11(d: Draw) -> dict:
         elif mode == "setup":
             ops.append(dict(op="setup", inst=cur))
         elif mode == "setupsel":
-            sel = draw_selection(d, spec, "main", p_R=0.0, p_X=0.25, p_T=1.0)
+            sel = draw_selection(d, spec, "main", p_R=0.15, p_X=0.25, p_T=0.9)
             ops.append(dict(op="setup", inst=cur, sel=sel))
         else:
             ncopy += 1
@@ -493,7 +496,7 @@ P_C18 = gen.profile(**{**gen.GRAPH, "p_setup": 0.1, "n_stmts": (2, 9), "p_flag":
                        "ret_types": [("int", 5), ("none", 1)]})
 P_C19 = gen.profile(**{**gen.GRAPH, "p_setup": 0.1, "n_stmts": (2, 10), "p_flag": 0.15, "p_default": 0.5, "n_params": (0, 3), "p_tag": 0.2})
 P_C15 = gen.profile(**{**gen.SCHED, "p_setup": 0.0, "n_stmts": (2, 8), "p_flag": 0.15, "n_params": (1, 3), "p_default": 0.5,
-                       "prio": (-2, 5), "p_prio": 0.7})
+                       "prio": (-2, 5), "p_prio": 0.7, "p_tag": 0.15})
 
 
 def g_c18(d: Draw) -> dict:
@@ -561,7 +564,7 @@ def g_c19(d: Draw) -> dict:
         single = len(outs) == 1 and d.bool(0.5)
         name = f"cmp{j}"
         ops.append(dict(op="compose", inst="E:main", inputs=ins, outputs=[alias_for(d, spec, "main", n) for n in outs], single=single,
-                        **{"as": name}, is_async=d.pick([None, None, True, False])))
+                        **{"as": name}, is_async=d.pick([None, None, True, False]), mc=d.pick([None, None, 2, 4])))
         n_in = len(in_nodes)
         ops.append(dict(op="call", inst=name, args=[str(d.int(1, 60)) for _ in range(n_in)]))
     ops.append(dict(op="call", inst="E:main", args=draw_args(d, dg, 0.3)))
@@ -579,8 +582,14 @@ def g_c15(d: Draw) -> dict:
     calls_idx = [i for i, s in enumerate(dg["stmts"]) if s["k"] == "call"]
     for _ in range(n):
         mode = d.weighted([("call", 4), ("failcall", 3), ("exec", 3), ("exec2", 3), ("execfail2", 3), ("config", 1), ("failbuild", 1),
-                           ("compose", 1)])
+                           ("compose", 1), ("cancel", 1)])
         j = len(ops)
+        if mode == "cancel":
+            if dg["is_async"]:
+                ops.append(dict(op="gather", calls=[dict(inst="E:main", args=draw_args(d, dg))], ticker=False,
+                                cancel=dict(idx=0, at=d.int(0, 5))))
+                ops.append(dict(op="results_keys", inst="E:main"))
+            continue
         if mode == "call":
             ops.append(dict(op="call", inst="E:main", args=draw_args(d, dg)))
         elif mode == "failcall" and calls_idx:
